@@ -7,6 +7,7 @@
 -/
 import AITB.Props.C02
 import AITB.Model.POMDPSolve
+import AITB.Gen.C02Sites
 
 namespace AITB.POMDP
 open AITB.MDP (sumTo maxTo argmaxTo Vec Vec.get mkVec absR sumTo_eq sumTo_congr sumTo_le sumTo_add sumTo_mul_left mkVec_get maxTo_ge maxTo_attained maxTo_congr absR_eq)
@@ -404,5 +405,18 @@ theorem wReserve_room : ∀ (k r counter : Nat), counter < r → counter + k < w
       omega
 
 example : wReserveAction 2 5 0 = 8 := by decide
+
+/-! ## (5) the tie: statements the round-3 model hard-codes, as located in the source on this run -/
+
+/-- the ten statements of the outer loop (found, in order, in all three solvers' `operator()`), the nine of `weakBoundDistance`, the
+    fifteen of LinearSupport's loop (incl. `VertexComparator`), the twenty-two of Witness' per-action loop and `addVariations`, and the exact
+    forms of the helpers one level down (Core.hpp comparisons, `veccmp`, `findBestAtPoint`'s tie-break, `crossSumBestAtBelief`) are the
+    ones the model copies (test on generated literals; the generator raises when a statement is missing, reordered or reworded) -/
+theorem sites3_match_model :
+    AITB.Gen.C02.outerLoopSites = ["makeVF", "timestep0", "useTolerance", "variation2tol", "while", "inc", "projectPrev", "emplace", "wbd", "ret"] ∧
+    AITB.Gen.C02.wbdSites = ["emptyOld0", "dist0", "forNew", "closestInf", "forOld", "maxAbsDiff", "min", "max", "ret"] ∧
+    AITB.Gen.C02.lsLoopSites = ["cornerSupports", "pushIfInserted", "verticesOfGood", "skipTried", "supportAtVertex", "currentValue", "diff", "acceptTest", "markTried", "breakIfEmpty", "popTop", "obsoleteTest", "verticesOfNew", "pushBest", "errorLess"] ∧
+    AITB.Gen.C02.witnessLoopSites = ["reserveMax", "clearU", "lpReset", "clearAgenda", "clearTried", "counter0", "allocate", "defaultEntry", "while", "findWitnessBack", "bestAtWitness", "addRow", "addVariations", "doubleReserve", "popIfNone", "defaultTried", "skipIdx", "skipSame", "skipTried", "markTried", "variationValues", "restore"] ∧
+    AITB.Gen.C02.helperForms = ["checkEqualSmall", "checkDifferentSmall", "checkEqualGeneral", "checkDifferentGeneral", "veccmp", "findBestAtPointTie", "crossSumBestAtBelief"] := by decide
 
 end AITB.POMDP
